@@ -32,6 +32,8 @@ deriving Repr
 /-- what the application reported -/
 structure ObsView where
   env : List (Bytes × Bytes)
+  /-- by-name lookups `getenv(name)` for every name of `env` -/
+  names : List (Bytes × Bytes)
   get : List (Bytes × Bytes)
   post : List (Bytes × Bytes)
   /-- name, value, path, domain -/
@@ -58,6 +60,8 @@ def sHTTP_CONNECTION : Bytes := [72, 84, 84, 80, 95, 67, 79, 78, 78, 69, 67, 84,
 
 /-- the application saw exactly the request the peer encoded -/
 def viewOk (r : AbsReq) (v : ObsView) : Bool :=
+  -- looking a variable up by name gives what the `getenv()` map lists (no duplicate names in a well-formed request)
+  v.names == v.env &&
   lookupD v.env sREQUEST_METHOD == r.method &&
   lookupD v.env sSCRIPT_NAME == r.script &&
   lookupD v.env sPATH_INFO == r.path &&
